@@ -396,6 +396,19 @@ func init() {
 		ts := x.ts
 		return ts.Int2BV(ts.IBin(OIMod, ts.IBin(OIMul, ts.BV2Int(v, false), ts.Int(c)), ts.Int(bq)), 64)
 	}
+	// BRedAdd(x, q, brc) = x mod q exactly (r < q and r ≡ x determine r), for every 64-bit x; discharged on the real
+	// kernel by the C01 BRedAdd harness and re-discharged for the moduli of the harness that uses it.
+	contractStubs["contract:bredadd"] = func(x *Exec, fn *ssa.Function, a []Value) Value {
+		v, q := x.term(a[0]), x.term(a[1])
+		if !q.IsConst() || q.C == 0 {
+			panic(x.errf("contract:bredadd needs a concrete modulus"))
+		}
+		if v.IsConst() {
+			return nil2term(x, fn, a)
+		}
+		ts := x.ts
+		return ts.Int2BV(ts.IBin(OIMod, ts.BV2Int(v, false), ts.Int(new(big.Int).SetUint64(q.C))), 64)
+	}
 	contractStubs["contract:mredlazy"] = func(x *Exec, fn *ssa.Function, a []Value) Value {
 		v, y, q := x.term(a[0]), x.term(a[1]), x.term(a[2])
 		if !y.IsConst() || !q.IsConst() {
